@@ -7,12 +7,17 @@ Model: Model/Harm.lean (hand-written; tied to maths.sYlm, numerical.interpolate
 and the grids of core.Psi4_lm by the correspondence of tools/props/C20.py).
 Spec:  Spec/Harm.lean (Rodrigues / associated Legendre functions).
 
-NOT proven here (watched only by the numerical sentinel of the check):
-  * orthonormality in `l` (Jacobi-polynomial integrals) and the norm `1`;
-  * exactness of scipy's RegularGridInterpolator at nodes / on trilinear fields;
-  * convergence of the θ midpoint rule, hence the size of the error of
-    `sYlm_coefficients ∘ sYlm_reconstruct` and of `Psi4_lm`;
-  * the spin-0 identification for l > 4 (T3 is a table up to l = 4).
+NOT proven in THIS file — see Props/C20b.lean and Props/C20c.lean, which prove:
+  * orthonormality over the sphere for all integers s, l, m, l', m' (C20c T18;
+    C20b T9 is the kernel-decided table l, l' ≤ 12);
+  * exactness of scipy's linear RegularGridInterpolator at nodes / on trilinear
+    fields (C20b T17);
+  * the θ-midpoint error of the discrete Gram matrix: closed form, explicit
+    O(1/N²) bound, convergence of `sYlm_coefficients ∘ sYlm_reconstruct` (C20b T11–T15,
+    C20c T20–T22); `DiscreteOrthonormal` below is FALSE on the code's grid (C20b T14);
+  * the spin-0 identification for all l (C20b T16; T3 here is the table l ≤ 4).
+Still not proven anywhere: the spatial interpolation error of non-trilinear
+fields, hence the convergence of `rel['Psi4_lm']` itself (sentinel only).
 -/
 import AurelVerif.Lemmas.HarmStd
 
